@@ -24,8 +24,8 @@ import lib_agser as L
 PROPERTY = "C12"
 SCOPE = {
     "quick": "all graphs on <=2 nodes (12 node variants: or / and / defense x viable x necessary, all edge sets incl. self "
-             "loops) x all sequences of 3 compromises (attacker, node) by 2 attackers; all graphs on 3 or/and nodes x "
-             "all labels x all edge sets without self loops x 3 seeded compromise sequences of length 3; 6000 seeded random "
+             "loops) x all sequences of 3 compromises (attacker, node) by 2 attackers (2 nodes: first move by attacker 0); all graphs on 3 or/and nodes x "
+             "all labels x all edge sets without self loops x 2 seeded compromise sequences of length 3; 6000 seeded random "
              "graphs of 3-4 nodes over 24 variants (also exist / notExist, suppressed / half-enabled / status-less "
              "defenses, self loops) x random sequences of <=3 compromises (repeats allowed); every query is evaluated after "
              "every prefix of the sequence, the incremental update from every earlier prefix to every later one",
@@ -80,12 +80,14 @@ def cases(tier, seed):
             for mask in range(1 << len(pairs)):
                 edges = [list(pairs[k]) for k in range(len(pairs)) if mask >> k & 1]
                 for seq in itertools.product(moves, repeat=3):
+                    if n == 2 and seq[0][0] == 1:
+                        continue            # first move by attacker 0 (the two attackers are interchangeable)
                     yield {"set": "small", "nodes": list(vs), "edges": edges, "names": ["x", "x"] if mask & 1 else ["a", "b"],
                            "seq": [list(m) for m in seq]}
     # exhaustive graphs on 3 or/and nodes (no self loops), sampled sequences
     pairs = [(i, j) for i in range(3) for j in range(3) if i != j]
     moves = [(a, i) for a in (0, 1) for i in range(3)]
-    k = 3 if tier == "quick" else 12
+    k = 2 if tier == "quick" else 12
     for vs in itertools.product(range(len(ORAND)), repeat=3):
         for mask in range(1 << len(pairs)):
             edges = [list(pairs[q]) for q in range(len(pairs)) if mask >> q & 1]
